@@ -249,7 +249,8 @@ PROPS = {
     "C09": dict(pool_prop([], ["fairness: the n*k picks lie within the first 2^32 BIND picks (the uint32 cursor wraps after that; when n does not divide 2^32 the wrap breaks the cycle once: limitation K1, kernel-checked witness rr_unfair_at_wrap, not reachable through the API)", "pool composition unchanged during the window"]),
                 theorems=pool_thms(["rr_next_slot", "rrSlot_succ"]) + [("GcpVerif.Proofs.PoolRR", "GcpVerif.Pool." + n) for n in
                 ["rr_fair", "rr_fair_nowrap", "window_hits_once", "rrSlot_early", "rr_cursor", "pickRR_assigns", "rr_unfair_at_wrap"]] +
-                [("GcpVerif.Proofs.Ties", "GcpVerif.Ties.rr_cursor_atomic_add")]),
+                [("GcpVerif.Proofs.Ties", "GcpVerif.Ties.rr_cursor_atomic_add")] +
+                [("GcpVerif.Proofs.PoolRRWait", "GcpVerif.Pool." + n) for n in ["no_ready_waiter", "no_ready_waiter_run", "wake_leaves_unready"]]),
     "C20": dict(pool_prop(["resolver_error_identity"]), theorems=pool_thms(["resolver_error_identity"]) + [("GcpVerif.Proofs.Ties", "GcpVerif.Ties.resolver_error_only_logs")]
                 + [("GcpVerif.Proofs.PoolAddrs", "GcpVerif.Pool." + n) for n in ["addrs_current", "addrsCur_run", "ccs_connects_all", "ccs_sets_addrs"]]),
     "C13": {
